@@ -10,22 +10,22 @@ EQ_NOTE = "component functions (number_arrivals, cost_of_jobs, service_needed) a
 
 CHECKS = {
  "C01": ("runtime monitor: execution + independent model (discrete-time FP scheduler simulator, offline schedule validator, adversarial/random schedules)",
-         "exploration: for thousands of random task systems (tens of thousands in the thorough tier) every Ok bound of the four FP analyses is compared with the response times of all jobs in validated schedules produced by critical-instant and randomised adversaries; the bound was attained by some schedule in ~98% of the cases, so optimism of even one time unit is exposed on most inputs. Held on the schedules observed.",
+         "exploration: for 10,000 (thorough 150,000) random task systems (arrival models of every kind incl. recorded prefixes and nested compositions, scalar costs and cost curves, Never tasks) every Ok bound of the four FP analyses is compared with the response times of all jobs (~9 million per quick run) in validated schedules produced by critical-instant and randomised adversaries, plus a complete state-graph exploration of tiny systems every 16th case; the bound was attained by some schedule in ~99% of the cases, so optimism of even one time unit is exposed on most inputs. Held on the schedules observed.",
          SIM_NOTE, "DESIGN.md §4, §5 C01"),
  "C02": ("runtime monitor: execution + independent model (EDF scheduler simulator with adversarial tie-breaking, offline validator)",
-         "exploration: as C01 for the four EDF analyses with arbitrary relative deadlines (also > period, all equal), blockers with later deadlines released one slot earlier, ties against the analysed task. Bound attained in ~93% of analysable cases.",
+         "exploration: as C01 for the four EDF analyses with arbitrary relative deadlines (also > period, all equal), blockers with later deadlines released one slot earlier, ties against the analysed task. Deadline-aligned schedules (release of the analysed job placed so that an interferer's deadline coincides) raise attainment to ~98% of analysable cases.",
          SIM_NOTE, "DESIGN.md §4, §5 C02"),
  "C03": ("runtime monitor: execution + independent model (FIFO scheduler simulator, offline validator)",
-         "exploration: as C01 for the FIFO analysis; every task's jobs are measured; the synchronous dense schedule attains the bound in ~95% of analysable systems.",
+         "exploration: as C01 for the FIFO analysis; every task's jobs are measured; 30,000 (thorough 600,000) systems; the bound is attained in ~93% of analysable systems.",
          SIM_NOTE, "DESIGN.md §4, §5 C03"),
  "C04": ("runtime monitor: execution + independent model (ROS 2 executor + reservation simulator with polling points, offline log validator)",
-         "exploration: random executors (timers, polled callbacks, chains) on Dedicated/Periodic/Constrained supply are executed under canonical worst-case budget placements and arrival phases and randomised ones; every validated execution's response times are compared with rta_timer / rta_polling_point_callback / rta_processing_chain bounds; a FIFO-on-reservation model checks rta_event_source. Bounds attained in ~45% (event source ~60%) of analysable cases.",
+         "exploration: random executors (timers, polled callbacks, chains) on Dedicated/Periodic/Constrained supply are executed under canonical worst-case budget placements and arrival phases and randomised ones; every validated execution's response times are compared with rta_timer / rta_polling_point_callback / rta_processing_chain bounds; a FIFO-on-reservation model checks rta_event_source; stand-alone callbacks carry cost curves (wcet::Curve / ExtrapolatingCurve) in half of the eligible cases and the executions respect them; twin callbacks on shared model objects; every 16th case explores ALL executions of a tiny executor (arrivals, execution times, budget placements). 12,000 (thorough 250,000) executors, ~2.4 million instances compared per quick run; bounds attained in ~45% (event source ~60%) of analysable cases.",
          SIM_NOTE + "; timer blocking bound = largest WCET of anything that is not a higher-priority timer, minus one; chained callbacks are assumed to follow their chain's source curve and executions violating that premise are discarded for the affected analysis", "DESIGN.md §4, §5 C04"),
  "C05": ("runtime monitor: execution + independent model (ROS 2 executor simulator) on self-consistent bound vectors obtained by iterating the analysis",
-         "exploration: for random executors of independent timers / known-priority / unknown-priority polled callbacks the rr and bw singleton analyses are iterated upwards from the WCETs until the assumed-bound vector reproduces itself; the executor model is then run and every instance's response time compared with its bound.",
+         "exploration: for random executors of independent timers / known-priority / unknown-priority polled callbacks the rr and bw singleton analyses are iterated upwards from the WCETs until the assumed-bound vector reproduces itself; the executor model is then run and every instance's response time compared with its bound (~4 million instances per quick run; cost curves and twin callbacks as in C04; small-scope exhaustive exploration every 16th case).",
          SIM_NOTE, "DESIGN.md §4, §5 C05"),
  "C06": ("runtime monitor: differential oracle (naive evaluator of the published equations: every offset, linear-scan fixed points) + hook H2 observing the offsets the library examined",
-         "exploration: on >10^4 (thorough >10^5) random inputs per run to the nine dedicated_uniproc_rta functions the result (value, Ok/Err, error payload) must equal the exhaustive evaluation, at limits N-1, N, N+1 and a generous one (N = largest least-solution needed); the library skipped ~70% of the offsets the evaluator examined, i.e. the pruning under test was exercised.",
+         "exploration: on 100,000 (thorough 2,000,000, also on the release build) random inputs per run to the nine dedicated_uniproc_rta functions the result (value, Ok/Err, error payload) must equal the exhaustive evaluation, at limits N-1, N, N+1 and a generous one (N = largest least-solution needed); the library skipped ~60% of the offsets the evaluator examined, i.e. the pruning under test was exercised; a panic or an exhausted loop budget where the evaluator has a defined answer is a violation.",
          EQ_NOTE, "DESIGN.md §5 C06"),
  "C07": ("runtime monitor: differential oracle (naive evaluator of the ROS 2 inequalities with a brute-force supply-bound function from (Q,D,P) alone)",
          "exploration: as C06 for the six ROS 2 analyses (all callback kinds, singleton and multi-callback subchains, all supply kinds incl. the trait-default service_time); thorough tier also on the release build.",
@@ -34,7 +34,7 @@ CHECKS = {
          "exploration: search_with_offset / search / max_response_time are compared with a linear scan on synthetic staircase workloads over all supply kinds, offsets inside the busy window and limits around the solution; in addition every search executed inside FP/EDF/FIFO analyses is checked for leastness / true divergence against the analysis' own right-hand side, and the item sequence seen by max_response_time is matched with the returned value.",
          "the supply object's provided_service is the definition of 'service guaranteed' (its exactness is C09); in-situ Err checks with limit > 3000 are sampled", "DESIGN.md §5 C08"),
  "C09": ("runtime monitor: differential oracle = exhaustive enumeration of budget placements (small P complete) + random concrete reservation timelines",
-         "exploration: provided_service is compared for equality with the minimum over ALL budget placements for every (Q,D,P) with P<=6 (thorough 9) and every window length up to 3P+2 (a complete enumeration of that finite space), and on sampled window lengths for random (Q,D,P) up to P=300 (thorough 5000); service_time (specialised and trait default) is compared with a linear-scan inverse; concrete random placements are checked to deliver at least the promised service. Held-on-what-was-observed, not a proof for all P.",
+         "exploration: provided_service is compared for equality with the minimum over ALL budget placements for every (Q,D,P) with P<=6 (thorough 9) and every window length up to 3P+2 (a complete enumeration of that finite space), and on sampled window lengths for random (Q,D,P) up to P=20,000 (thorough 40,000, budget 1 in a quarter of the cases); windows and demands up to 2^60 through the period structure; service_time (specialised and trait default) is compared with a linear-scan inverse; concrete random placements are checked to deliver at least the promised service. Held-on-what-was-observed, not a proof for all P.",
          "trusts the harness's reservation semantics (exactly Q slots per period inside the first D slots, independent per period); for P>9 the per-period minimum is computed by counting instead of subset enumeration (cross-checked on all small cases).",
          "DESIGN.md §5 C09"),
  "C10": ("runtime monitor: execution + independent generative model of admissible event sequences; window counting oracle",
@@ -47,19 +47,19 @@ CHECKS = {
          "exploration: from_trace curves are compared with every window of the raw trace for every prefix length; conversions are compared pointwise with their source up to 20x the covered prefix (domination) and inside it (equality); delta_min_iter is compared with the dual computed by scanning.",
          "traces/conversions whose inferred prefix ends with distance 0 (unbounded process) are outside the domain; non-domination is first triaged against sub-additivity of the source", "DESIGN.md §5 C12"),
  "C13": ("runtime monitor: history monitor over shared clones (answers vs. independent super-additive closure and vs. fresh objects) + cache-snapshot hook H4; Miri on a reduced history in the thorough tier",
-         "exploration: eager extrapolation is compared with an independent closure and with admissible sequences of the original prefix; 50-300-operation query histories over 2-4 clones and live iterators of one ExtrapolatingCurve are monitored for history-independence, panics, append-only shared cache. One known finding (eager extrapolation can loosen the curve beyond the extended prefix).",
+         "exploration: eager extrapolation is compared with an independent closure and with admissible sequences of the original prefix; 50-300-operation query histories over 2-4 clones and live iterators of one ExtrapolatingCurve are monitored for history-independence, panics, append-only shared cache; first queries thousands of entries beyond the cache (big jumps), prefixes of 70-140 entries, queries before/after eager extension, analyses run twice on the same cached objects. One known finding (eager extrapolation can loosen the curve beyond the extended prefix).",
          "prefixes are non-decreasing, super-additive, last entry > 0", "DESIGN.md §5 C13"),
  "C14": ("runtime monitor: execution oracle (all runs of the raw cost trace) + history monitor with cache-snapshot hook H4; Miri on a reduced history in the thorough tier",
-         "exploration: cost-model consistency for all models; from_trace curves vs. every run of consecutive jobs for every max_n; extrapolation vs. plain; ExtrapolatingCurve histories vs. independent sub-additive closure and fresh objects. One known finding (extrapolate can raise cost_of_jobs beyond the extended prefix).",
+         "exploration: cost-model consistency for all models incl. from_iter curves from arbitrary (not sub-additive) vectors; from_trace curves vs. every run of consecutive jobs for every max_n; extrapolation vs. plain; ExtrapolatingCurve histories vs. independent sub-additive closure and fresh objects. One known finding (extrapolate can raise cost_of_jobs beyond the extended prefix).",
          "cumulative prefixes are non-decreasing and sub-additive with positive increments", "DESIGN.md §5 C14"),
  "C15": ("runtime monitor: differential oracle (log-space Poisson tails) + iteration-fuel hook H3 deciding termination",
          "exploration: full grid rate x epsilon x mean (up to 5000) plus random points; quantile accepted iff it is the least n with tail <= epsilon (band for ties at machine precision); mass function compared to relative 1e-9; termination decided by a loop budget derived from the oracle's answer.",
-         "epsilon in [1e-12, 0.5]", "DESIGN.md §5 C15"),
+         "epsilon in [1e-13, 0.5] (below 1e-12 only for means <= 6)", "DESIGN.md §5 C15"),
  "C16": ("runtime monitor: differential recomputation from the public component models",
          "exploration: RBF / Aggregate / Slice / boxed / nested / &, Rc wrappers over random (arrival, cost) parts: service_needed, job_cost_iter, least_wcet_in_interval, service_needed_by_n_jobs (monotone, capped, sum of n largest) and the per-component variant are recomputed from the parts.",
          "component values come from the library's component objects (C10/C14)", "DESIGN.md §5 C16"),
  "C17": ("runtime monitor: relational oracle over pairs of calls (base vs. single-parameter hardening; limit raised)",
-         "exploration: ~75,000 (base, hardened) pairs per quick run over all fifteen analyses and all hardenings named by the property; supply pairs are confirmed pointwise on brute-force SBFs before use.",
+         "exploration: ~870,000 (base, hardened) pairs per quick run over all fifteen analyses and all hardenings named by the property; supply pairs are confirmed pointwise on brute-force SBFs before use.",
          "scalar costs; the analysed task's own last segment is not a hardening", "DESIGN.md §5 C17"),
  "C18": ("runtime monitor: execution + independent model; witness search (critical-instant schedules, then random neighbourhood) validated offline",
          "exploration: for systems with exact arrival curves the critical-instant schedule's largest response time must EQUAL the FP-preemptive / FP-non-preemptive / FIFO bound; it did in 100% of analysable cases on the unchanged tree, so one unit of added pessimism is exposed.",
@@ -68,8 +68,8 @@ CHECKS = {
          "exploration: all relations named by the property on random systems with identical limits, incl. max NP-EDF = FIFO under equal deadlines, Dedicated = Periodic(P,P) = Constrained(P,P,P) for all six ROS 2 analyses, event source = FIFO.",
          "scalar costs; event source vs FIFO only on exact arrival models", "DESIGN.md §5 C19"),
  "C20": ("runtime monitor: same seeded corpus executed by a checked build (debug assertions + overflow checks) and a release build under catch_unwind with iteration fuel (hook H3); offline comparison of the outcome logs; wall-clock watchdog = inconclusive",
-         "exploration: 24,000 (thorough 600,000) calls into every public analysis / constructor / query with well-formed inputs incl. degenerate roles (Never everywhere, empty interferer sets, limits from 1); any panic, exhausted budget or profile-dependent outcome is a violation. One known finding (ArrivalCurvePrefix directly inside a request bound).",
-         "termination = returns within 500,000 instrumented loop iterations; loops without hooks are covered by the watchdog only", "DESIGN.md §5 C20"),
+         "exploration: 200,000 (thorough 3,000,000) calls into every public analysis / constructor / query with well-formed inputs incl. degenerate roles (Never everywhere, empty interferer sets, limits from 1); any panic, exhausted budget or profile-dependent outcome is a violation. One known finding (ArrivalCurvePrefix directly inside a request bound).",
+         "termination = returns within 600,000 (model queries: 60,000) instrumented loop iterations, counting items pulled from harness-wrapped step iterators with increasing weight; loops over objects the library composes itself carry no countable event and are covered by the watchdog only (INCONCLUSIVE)", "DESIGN.md §5 C20"),
 }
 
 NOT_YET = {}
